@@ -341,6 +341,7 @@ func c16Carousel(c *Ctx) {
 		"a signer id is appended to candidates only under !slices.Contains(lastAuthors, id), iterating the participants of CommittedBlock().QuorumCert().Signature()", "candidate construction not recognised")
 	// lastAuthors: proposers of the committed head and its ancestors, at most f of them
 	okAuth := false
+	localOnly := false
 	for _, hf := range helperClosure(p, gl, 2) {
 		hfl := fl
 		if hf != gl {
@@ -355,6 +356,24 @@ func c16Carousel(c *Ctx) {
 				var elem string
 				storedInto(sliceBase(call.Call.Args[1]), func(e ssa.Value) bool { elem = hfl.K.Key(e); return false })
 				if strings.HasPrefix(elem, "(*hs.Block).Proposer(phi@") {
+					// the ancestors are obtained with Blockchain.Get, which fetches what is missing: with the local look-up
+					// the excluded authors depend on what this replica happens to have stored
+					if ap := call.Call.Args[1]; ap != nil {
+						storedInto(sliceBase(ap), func(e ssa.Value) bool {
+							if pc, ok := e.(*ssa.Call); ok && len(pc.Call.Args) == 1 {
+								if ph, ok := pc.Call.Args[0].(*ssa.Phi); ok {
+									for _, ed := range ph.Edges {
+										if ex, ok := ed.(*ssa.Extract); ok {
+											if lc, ok := ex.Tuple.(*ssa.Call); ok && lc.Call.StaticCallee() != nil && lc.Call.StaticCallee().Name() == "LocalGet" {
+												localOnly = true
+											}
+										}
+									}
+								}
+							}
+							return false
+						})
+					}
 					// bounded by a counter that advances with every append, or by the length of the list itself
 					dst := hfl.K.Key(call.Call.Args[0])
 					if hasCmp(hfl.At(in), "<", func(k string) bool {
@@ -368,6 +387,8 @@ func c16Carousel(c *Ctx) {
 			}
 		})
 	}
+	c.Check(!localOnly, "C16.3/authors", "Carousel.GetLeader: the ancestors of the committed head are fetched if missing", p.FuncPos(gl),
+		"the walk over the committed head's ancestors uses Blockchain.Get", "the walk uses Blockchain.LocalGet: a replica that lacks an ancestor stops early, excludes fewer authors and names another leader than its peers")
 	c.Check(okAuth, "C16.3/authors", "Carousel.GetLeader: excludes the proposers of at most the last f committed blocks", p.FuncPos(gl),
 		"lastAuthors collects block.Proposer() along the parent chain only while i < NumFaulty(ReplicaCount())", "author-exclusion loop not recognised")
 }
